@@ -151,6 +151,27 @@ class SymFactory:
     def num(self, name, ty):
         return self.ctx.input(name, ty)
 
+    def atom(self, name, rx=None, domain=None, sample=None):
+        """an opaque string standing for every string of a regular language (regex) or of a finite domain"""
+        from .tokstr import Atom
+
+        self.ctx.options["tokstr"] = True
+        return Atom(name, rx, domain, sample)
+
+    def conforms(self, pattern, s):
+        """does EVERY string of this form match the pattern?  (automata inclusion; a counterexample becomes a replay hint)"""
+        from . import reglang, tokstr
+
+        if isinstance(s, str):
+            return pattern.fullmatch(s) is not None
+        ts = s if isinstance(s, tokstr.TokStr) else tokstr.TokStr([s])
+        tmpl = tokstr.template_of(self.ctx, ts)
+        inc, w = reglang.included_erased(reglang.printed_nfa(tmpl), reglang.pattern_nfa(pattern))
+        self.ctx.used_models.add("regular languages: inclusion of the printed form in the pattern decided by automata (pyvc.reglang)")
+        if not inc:
+            self.ctx.options.setdefault("__replay_hints__", {}).update(tokstr.align(self.ctx, ts, w))
+        return inc
+
     def assume(self, cond):
         self.ctx.assume(cond if not isinstance(cond, Sym) else cond.t)
 
@@ -310,6 +331,15 @@ class NativeFactory:
 
     def bool(self, name):
         return self._val(name, bool)
+
+    def atom(self, name, rx=None, domain=None, sample=None):
+        v = self.values.get("atom:" + name)
+        if v is not None:
+            return v
+        return sample if sample is not None else sorted(domain)[0]
+
+    def conforms(self, pattern, s):
+        return pattern.fullmatch(s) is not None
 
     def num(self, name, ty):
         return self._val(name, ty)
